@@ -409,6 +409,150 @@ def check_histories(acc, E, seed, scform, depth, shard, nshards):
                               {'history': list(hist), 'container': scform}, 'same results as in isolation, inputs untouched', bad)
 
 
+# ---------------------------------------------------------------- histories on shared model / settings objects
+
+def model_kinds(E, seed):
+    """(name, factory() -> state, ops{name: fn(state)}) - each op returns a plain value; state holds the shared objects."""
+    np, dtw, bc = E['np'], E['dtw'], E['bc']
+    from dtaidistance.clustering import hierarchical as hier
+    from dtaidistance.clustering import kmeans as km
+    from dtaidistance.subsequence.subsequencealignment import subsequence_alignment
+    from dtaidistance.subsequence.subsequencesearch import subsequence_search
+    from dtaidistance.subsequence.localconcurrences import local_concurrences
+    A = univ.alphabet(univ.BASE3, seed)
+    a0, a1, a2 = A
+    query = np.array([a0, a1, a2])
+    cands = [np.array(x) for x in ([a0, a1, a0], [a0, a1, a1], [a1, a0, a1], [a1, a1, a2], [a0, a1, a2], [a1, a0, a1, a0])]   # pairwise distinct distances (asserted)
+    long_ = np.array([a1, a0, a1, a2, a1, a0, a2, a0, a0, a1, a2])
+    coll = [np.array(x) for x in ([a0, a1, a1], [a1, a1, a2], [a0, a0, a1], [a2, a2, a1], [a2, a1, a2])]
+    coll2 = [np.array(x) for x in ([a2, a1], [a0, a0, a1], [a2, a2, a1], [a0, a1])]
+    kinds = []
+    dd = sorted(float(dtw.distance(query, c)) for c in cands)
+    assert all(b - a > 1e-9 for a, b in zip(dd, dd[1:])), ('candidate distances must be pairwise distinct', dd)
+
+    def matches(ms):
+        return [(int(m.idx), float(m.distance)) for m in ms]
+
+    for use_c in (False, True):
+        for md in (None, 1.2 * abs(a1 - a0)):
+            def f_search(use_c=use_c, md=md):
+                return {'o': subsequence_search(query, cands, max_dist=md, use_lb=True, use_c=use_c)}
+            ops = {'k1': lambda st: matches(st['o'].kbest_matches(1)), 'k2': lambda st: matches(st['o'].kbest_matches(2)),
+                   'kall': lambda st: matches(st['o'].kbest_matches(None)), 'best': lambda st: matches([st['o'].best_match()]),
+                   'k3fast': lambda st: matches(st['o'].kbest_matches_fast(3))}
+            kinds.append(('SubsequenceSearch(%s,max_dist=%s)' % ('c' if use_c else 'py', 'set' if md else 'None'), f_search, ops))
+
+        def f_align(use_c=use_c):
+            return {'o': subsequence_alignment(query, long_, use_c=use_c)}
+        seg = lambda ms: [(tuple(int(v) for v in m.segment), float(m.value)) for m in ms]
+        kinds.append(('SubsequenceAlignment(%s)' % ('c' if use_c else 'py'), f_align,
+                      {'best': lambda st: seg([st['o'].best_match()]), 'k2': lambda st: seg(st['o'].kbest_matches(2)),
+                       'k3': lambda st: seg(st['o'].kbest_matches(3, overlap=1)), 'mf': lambda st: st['o'].matching_function(),
+                       'path': lambda st: [tuple(p) for p in st['o'].best_match().path]}))
+
+        def f_lc(use_c=use_c):
+            lc = local_concurrences(long_, None, gamma=1, tau=0.5, delta=-0.5, delta_factor=0.5, use_c=use_c)
+            return {'o': lc}
+        kinds.append(('LocalConcurrences(%s)' % ('c' if use_c else 'py'), f_lc,
+                      {'k1': lambda st: [[tuple(int(v) for v in q) for q in m.path] for m in st['o'].kbest_matches(k=1, minlen=2, buffer=1)],
+                       'k2': lambda st: [[tuple(int(v) for v in q) for q in m.path] for m in st['o'].kbest_matches(k=2, minlen=2, buffer=1)],
+                       'wp': lambda st: st['o'].wp[:, :] if hasattr(st['o'].wp, '__getitem__') and not use_c else None}))
+
+        def f_hier(use_c=use_c):
+            return {'o': hier.Hierarchical(dtw.distance_matrix, {'use_c': use_c, 'window': 2}, show_progress=False)}
+        kinds.append(('Hierarchical(%s)' % ('c' if use_c else 'py'), f_hier,
+                      {'fit5': lambda st: st['o'].fit(coll), 'fit4': lambda st: st['o'].fit(coll2),
+                       'fit5md': lambda st: _with_maxdist(st['o'], 2.0 * abs(a1 - a0), coll),
+                       'tree5': lambda st: canon(hier.HierarchicalTree(st['o']).fit(coll)),
+                       'tree4': lambda st: canon(hier.HierarchicalTree(st['o']).fit(coll2))}))
+
+        def f_km(use_c=use_c):
+            return {'o': km.KMeans(k=2, max_it=3, max_dba_it=2, drop_stddev=None, dists_options={'use_c': use_c, 'window': 2}, show_progress=False)}
+
+        def kfit(st, S):
+            np.random.seed(3)
+            import random
+            random.seed(3)
+            cl, it = st['o'].fit(S, use_c=use_c, use_parallel=False)
+            return (sorted((int(k), sorted(int(i) for i in v)) for k, v in cl.items()), [list(map(float, m)) for m in st['o'].means])
+        kinds.append(('KMeans(%s)' % ('c' if use_c else 'py'), f_km,
+                      {'fit5': lambda st: kfit(st, coll), 'fit4': lambda st: kfit(st, coll2)}))
+
+        # one settings dictionary shared by several consumers
+        def f_opts(use_c=use_c):
+            return {'opts': {'window': 2, 'use_c': use_c}}
+        kinds.append(('shared settings dict(%s)' % ('c' if use_c else 'py'), f_opts,
+                      {'dm': lambda st: dtw.distance_matrix(coll, compact=True, **st['opts']),
+                       'dm_square': lambda st: dtw.distance_matrix(coll, **st['opts']),
+                       'dist': lambda st: dtw.distance(coll[0], coll[3], **st['opts']),
+                       'hier': lambda st: hier.Hierarchical(dtw.distance_matrix, st['opts'], show_progress=False).fit(coll),
+                       'hier_md': lambda st: hier.Hierarchical(dtw.distance_matrix, st['opts'], max_dist=2.0 * abs(a1 - a0), show_progress=False).fit(coll),
+                       'search': lambda st: matches(subsequence_search(query, cands, dists_options=dict_without(st['opts'], 'use_c'), use_c=use_c).kbest_matches(2)),
+                       'search_shared': lambda st: matches(subsequence_search(query, cands, dists_options=st['opts'], use_c=use_c, max_dist=1.2 * abs(a1 - a0)).kbest_matches(2)),
+                       'kmeans': lambda st: (np.random.seed(3), km.KMeans(k=2, max_it=2, max_dba_it=2, drop_stddev=None, dists_options=st['opts'], show_progress=False).fit(coll, use_c=use_c, use_parallel=False)[0])[1]}))
+    inputs = [query, long_] + cands + coll + coll2
+    return kinds, inputs
+
+
+def dict_without(d, k):
+    d = dict(d)
+    d.pop(k, None)
+    return d
+
+
+def _with_maxdist(model, md, S):
+    old = model.max_dist
+    model.max_dist = md
+    try:
+        return model.fit(S)
+    finally:
+        model.max_dist = old
+
+
+def check_model_histories(acc, E, seed, depth, shard, nshards):
+    np = E['np']
+    kinds, inputs = model_kinds(E, seed)
+    snap = [x.tobytes() for x in inputs]
+    idx = 0
+    for kname, factory, ops in kinds:
+        names = sorted(ops)
+        iso = {}
+        for n in names:
+            r = core.call(ops[n], factory())
+            iso[n] = r if isinstance(r, core.Exc) else canon(r)
+        for d in range(1, depth + 1):
+            for hist in itertools.product(names, repeat=d):
+                idx += 1
+                if idx % nshards != shard:
+                    continue
+                core.crumb({'model': kname, 'history': list(hist)})
+                st = factory()
+                bad = None
+                for n in hist:
+                    r = core.call(ops[n], st)
+                    acc.trans()
+                    r = r if isinstance(r, core.Exc) else canon(r)
+                    exp = iso[n]
+                    if isinstance(exp, core.Exc):
+                        if not isinstance(r, core.Exc):
+                            bad = '%s raised %r on a fresh object but returned a value in this history' % (n, exp)
+                            break
+                        continue
+                    if isinstance(r, core.Exc) or not same(r, exp):
+                        bad = '%s in history returned %s, on a fresh object %s' % (n, repr(r)[:300], repr(exp)[:300])
+                        break
+                if bad is None and [x.tobytes() for x in inputs] != snap:
+                    bad = 'a shared input series was modified'
+                acc.valid()
+                acc.case('model-histories', nontrivial=d >= 2)
+                if bad:
+                    acc.violation('history', kname.split('(')[0], 'c' if '(c' in kname else 'py',
+                                  {'what': 'model history', 'model': kname, 'last': hist[-1], 'depth': len(hist)},
+                                  {'model': kname, 'history': list(hist)}, 'same results as on a fresh object; settings and inputs untouched', bad)
+                    if [x.tobytes() for x in inputs] != snap:
+                        return
+
+
 # ---------------------------------------------------------------- NumPy absent
 
 def child_nonumpy(args):
@@ -523,6 +667,7 @@ def worker(acc, shard, nshards, tier, seed):
     depth = 3
     for scform in ('list', 'SeriesContainer', 'matrix'):
         check_histories(acc, E, seed, scform, depth if (tier == 'thorough' or scform != 'matrix') else 2, shard, nshards)
+    check_model_histories(acc, E, seed, 3, shard, nshards)
 
 
 def run(ctx):
@@ -555,7 +700,7 @@ def run(ctx):
         rule='every API of a catalogue (25 pair-level, 14 collection-level routines, both engines) x every combination of container representations for its series arguments '
              '(list, tuple, array.array, ndarray contiguous / strided / reversed / row of a matrix / Fortran / transposed / read-only; list/tuple of arrays, strided rows, SeriesContainer, 2-D and 3-D arrays in C, strided and Fortran order); '
              'each array lives in a larger poisoned buffer (two poison values); every call is judged for untouched inputs and guard zones, independence of the poison, repeatability and equality with the canonical representation; '
-             'histories: every sequence up to depth 3 of 13 routines sharing the same series objects; NumPy absent: the NumPy-free routines in a NumPy-less interpreter; non-trivial = non-canonical container or history length >= 2',
+             'histories: every sequence up to depth 3 of 13 routines sharing the same series objects; every sequence up to depth 3 of the operations of one shared model object (SubsequenceSearch with/without max_dist, SubsequenceAlignment, LocalConcurrences, Hierarchical incl. HierarchicalTree wrappers and a changed max_dist, KMeans with a fixed random seed) and of consumers of one shared settings dictionary, in both engines, each step compared with the same operation on a fresh object; NumPy absent: the NumPy-free routines in a NumPy-less interpreter; non-trivial = non-canonical container or history length >= 2',
         bounds={'values': '4 univariate and 2 bivariate series pairs, 2+2 collections (equal and unequal lengths)', 'history_containers': 'list, SeriesContainer, 2-D matrix (depth 2 in quick)'},
         assumptions=['lists/tuples into the *_fast entry points and read-only arrays into the C engine are outside the container list of C20 (documented requirement: arrays of doubles) and not generated / counted as refused',
                      'dtw_cc.dba called directly updates its argument c by design; purity of the series is still demanded',
